@@ -598,7 +598,7 @@ pub const MAX: IEpochDay = IEpochDay { epoch_day: 2932896 };
         proof { lemma_month(N_Y); }
 
 
-        let J = N_Y >= 305;
+        let J = N_Y >= 306;
         let year = Y.wrapping_sub(L).wrapping_add(J as u32) as i16;
         let month = (if J { M - 12 } else { M }) as i8;
         let day = (D + 1) as i8;
